@@ -95,6 +95,10 @@ type s1 struct {
 	w    *RawPeer
 	twin *ServerInst // C02: a second server that is never sent a failing transaction
 	tw   *RawPeer
+	// C02: the last failed transaction minus the planted operations, and the
+	// generator's note about the current one
+	retry    []Op
+	lastMeta TxnMeta
 	obs  []*observer
 	db   string
 	last DBState
@@ -367,6 +371,16 @@ func (s *s1) transact(i int, txn TxnSpec) *TxnOutcome {
 	g := NewGen(e.Sch, txn.GenSeed, before, prof, fmt.Sprintf("t%d", i))
 	ops, meta := g.Txn()
 	ops = NormalizeOps(ops)
+	if e.Property == "C02" {
+		// what a client does after a failed transaction: submit it again without
+		// the operations that made it fail (same rows, same values, same uuids)
+		if s.retry != nil && simrt.NewRand(txn.GenSeed^0x7e7).Intn(3) == 0 {
+			ops, meta = s.retry, TxnMeta{Planted: "retry-without-culprit"}
+			e.Probes["c02_retry_without_culprit"]++
+		}
+		s.retry = nil
+	}
+	s.lastMeta = meta
 	if s.twin != nil {
 		for k, op := range ops {
 			if _, has := op["uuid"]; !has && op["op"] == "insert" {
@@ -451,6 +465,18 @@ func (s *s1) transact(i int, txn TxnSpec) *TxnOutcome {
 		}
 		fmt.Fprintf(&sb, "|%v|%d|%s", out.Failed, out.OpFailAt, errClass(out.CommitErr))
 		e.ShapeAdd(sb.String())
+	}
+	if out.Failed && e.Property == "C02" && len(s.lastMeta.Culprits) > 0 && len(s.lastMeta.Culprits) < len(ops) {
+		skip := map[int]bool{}
+		for _, k := range s.lastMeta.Culprits {
+			skip[k] = true
+		}
+		s.retry = nil
+		for k, op := range ops {
+			if !skip[k] {
+				s.retry = append(s.retry, op)
+			}
+		}
 	}
 	if out.Failed {
 		e.Probes["txn_failed"]++
